@@ -94,6 +94,27 @@ def vector_normalisation(env, cfg, ck):
     ck.eq('unitvec_norm:norm', nn, l, tol=1e-12, scale=l)
 
 
+@contract('C14', targets=[V + 'unittwist', V + 'unittwist_norm', V + 'unittwist2', V + 'unittwist2_norm'], configs=product(dim=[3, 2]))
+def twist_with_rotational_part_below_the_zero_threshold(env, cfg, ck):
+    """a twist whose rotational part is non-zero but below the zero threshold (10 eps) is normalised as a pure
+    translation: unit translational part, direction kept, and normalising the result again changes nothing"""
+    np, b = env.np, env.base
+    d = cfg['dim']
+    u = env.unitvec('u', d)
+    l = env.real('l', 1e-6, 1e6, 'logmag')
+    e = env.real('e', 1e-18, 2e-15, 'logmag')
+    w = [e * x for x in env.unitvec('n', 3)] if d == 3 else [e]
+    S = np.array([l * x for x in u] + w)
+    f, fn = (b.unittwist, b.unittwist_norm) if d == 3 else (b.unittwist2, b.unittwist2_norm)
+    r = ck.call(f, S)
+    ck.eq('unit-v', r[:d], np.array(u), tol=1e-12)
+    r2, th = ck.call(fn, S)
+    ck.eq('norm:twist', r2, r, tol=1e-12)
+    ck.eq('norm:theta', th, l, tol=1e-12, scale=l)
+    ck.eq('idempotent', ck.call(f, r), r, tol=1e-12)
+    ck.eq('idempotent:norm', ck.call(fn, r)[0], r, tol=1e-12)
+
+
 @contract('C14', targets=[V + 'unittwist', V + 'unittwist_norm'], configs=product(case=['rotational', 'irrotational']))
 def twist_normalisation_3d(env, cfg, ck):
     """a unit twist has unit rotational part, or, if irrotational, unit translational part; direction kept"""
